@@ -1,20 +1,72 @@
 /-
   C19 — compressed responses decode to the identity body; the compression cache is never stale.
-  Property theorems only (helper lemmas and the cache invariant live in LtVerif/Proofs/Deflate.lean).
+  Property theorems only.  Helper lemmas, the cache invariant and plain readings of the model's
+  decision ladder (`eligible_gates`, `respStart_ineligible`, `respStart_identity_eq`:
+  worth exactly as much as the `rs` / `cache` correspondence, NOT counted as property theorems)
+  live in LtVerif/Proofs/Deflate*.lean.
 
-  Claimed PARTIAL: zlib is external.  The coded form is a parameter `compress`; that it decodes
-  to its input is a hypothesis of `c19_served_decodes_partial` and is validated end-to-end with an
-  independent decoder, not proved.
+  Claimed PARTIAL: zlib is external.  What lighttpd does around the codec (every body byte is
+  handed to it once and in order, every byte it writes reaches the client or the cache file once
+  and in order, for every chunk layout, buffer size, read split and codec schedule) is proved
+  (`c19_stream_assembly`); that the codec's output is the RFC 1950 / RFC 1952 container around a
+  raw DEFLATE stream of what it consumed, and that raw DEFLATE round-trips, are the hypotheses of
+  the `_partial` theorems and are validated with an independent decoder on every coded body.
 -/
 import LtVerif.Proofs.Deflate
+import LtVerif.Proofs.DeflateStream
+import LtVerif.Proofs.DeflateRfc
 namespace LtVerif.C19
 open LtVerif B LtVerif.Deflate
 
 /-! ## negotiation: mod_deflate_choose_encoding() -/
 
-/-- The chosen coding is allowed by the configuration and listed by the client in an element
-    whose weight is not zero (never one the client marked `q=0`); its label occurs literally
-    in the header value. -/
+/-- Against RFC 9110 12.5.3 / 12.4.2 (independent specification `renderAE` / `listedAcceptable`
+    in Proofs/DeflateRfc.lean): for EVERY Accept-Encoding value that is a list of
+    `coding [ OWS ";" OWS "q=" qvalue ]` elements with arbitrary optional white space, the coding
+    chosen is allowed by the configuration and explicitly listed by the client with a non-zero
+    weight; and no coding is chosen only if no allowed coding is so listed.  (`*` and `identity`
+    are never used to justify or to refuse a coding: lighttpd may always answer with the identity
+    representation, which RFC 9110 permits unless `identity;q=0` — not honoured, see design ±.) -/
+theorem c19_negotiation_rfc (allowed : List CSet) (l : List AEItem) (hl : ∀ it ∈ l, it.wf) :
+    (∀ c, chooseEncoding allowed (renderAE l) = some c →
+      (∃ x ∈ allowed, x.mem c = true) ∧ listedAcceptable l c) ∧
+    (chooseEncoding allowed (renderAE l) = none →
+      ∀ x ∈ allowed, ∀ c, x.mem c = true → ¬ listedAcceptable l c) := by
+  constructor
+  · intro c h
+    obtain ⟨pre, x, post, rfl, hx, hacc, _⟩ := chooseSet_spec h
+    exact ⟨⟨x, by simp, hx⟩, (acceptSet_renderAE l hl c).mp hacc⟩
+  · intro h x hx c hxc hlist
+    have hacc := (acceptSet_renderAE l hl c).mpr hlist
+    unfold chooseEncoding chooseSet at h
+    split at h
+    · rename_i y hy
+      -- an entry was found, so `pick` of a non-empty intersection cannot be none
+      have hne := List.find?_some hy
+      rw [pick_none h] at hne
+      cases hne
+    · rename_i hnone
+      have := List.find?_eq_none.mp hnone x hx
+      simp only [CSet.isEmpty, CSet.inter, Bool.not_not, Bool.or_eq_true, Bool.and_eq_true, not_or, not_and,
+        Bool.not_eq_true] at this
+      cases c <;> simp_all [CSet.mem]
+
+/-- a rendered value: " gzip ;q=0 , deflate; Q=0.5,br" -/
+def demoAE : List AEItem :=
+  [ ⟨[sp], Coding.gzip.label, some ([sp], [], false, ⟨false, none⟩), [sp]⟩,
+    ⟨[sp], Coding.deflate.label, some ([], [sp], true, ⟨false, some [53]⟩), []⟩,
+    ⟨[], ofString "br", none, []⟩ ]
+example : renderAE demoAE = ofString " gzip ;q=0 , deflate; Q=0.5,br" := by decide
+example : chooseEncoding (encodingsToFlags none) (renderAE demoAE) = some .deflate := by decide
+example : ∀ it ∈ demoAE, it.wf := by
+  intro it h
+  simp only [demoAE, List.mem_cons, List.not_mem_nil, or_false] at h
+  rcases h with rfl | rfl | rfl <;>
+    simp [AEItem.wf, isOws, isTokenish, QValue.wf, Coding.label, sp, ht, comma, semi, isDigit, ofString]
+
+/-- For ARBITRARY header bytes (also values outside the RFC grammar): the chosen coding is in an
+    allowed entry, some scanned element carries its label with a weight that is not zero, and
+    the label occurs literally in the value. -/
 theorem c19_encoding_listed_allowed (allowed : List CSet) (hdr : Bytes) (c : Coding)
     (h : chooseEncoding allowed hdr = some c) :
     (∃ x ∈ allowed, x.mem c = true) ∧
@@ -79,61 +131,79 @@ theorem c19_encoding_config_allowed (l : List Bytes) (hl : l ≠ []) (hdr : Byte
 example : chooseEncoding (encodingsToFlags (some [ofString "deflate"])) (ofString "gzip, deflate") = some .deflate := by
   decide
 
-/-! ## gating and header adjustments: mod_deflate_handle_response_start() -/
+/-! ## header adjustments: mod_deflate_handle_response_start() -/
 
-/-- A response is only ever coded when the module is enabled for its MIME type, its size is
-    inside (min-compress-size, max-compress-size], it is complete, not a HEAD / 1xx / 204 / 205 /
-    304, not already coded or chunked, and the client sent an Accept-Encoding from which the
-    coding was negotiated. -/
-theorem c19_gating (cfg : Cfg) (rq : Rq) (rs : Rs) (c : Coding) (h : selectCoding cfg rq rs = some c) :
-    rs.finished = true ∧ rq.method ≠ .head ∧ rs.hasTE = false ∧ rs.hasCE = false ∧
-    200 ≤ rs.status ∧ rs.status ≠ 204 ∧ rs.status ≠ 205 ∧ rs.status ≠ 304 ∧
-    cfg.mimetypes ≠ [] ∧ cfg.minSize < rs.len ∧ (cfg.maxSizeKB = 0 ∨ rs.len ≤ cfg.maxSizeKB * 1024) ∧
-    mimeOk cfg.mimetypes rs.contentType = true ∧
-    ∃ ae, rq.acceptEncoding = some ae ∧ chooseEncoding cfg.allowed ae = some c := by
-  unfold selectCoding at h
-  split at h
-  · cases h
-  rename_i h1
-  split at h
-  · cases h
-  rename_i h2
-  split at h
-  · cases h
-  rename_i h3
-  split at h
-  · cases h
-  rename_i h4
-  split at h
-  · cases h
-  rename_i h5
-  split at h
-  · cases h
-  rename_i ae hae
-  split at h
-  · cases h
-  rename_i c' hc'
-  split at h
-  case isFalse => cases h
-  rename_i hm
-  cases h
-  simp only [Bool.or_eq_true, Bool.not_eq_true', decide_eq_true_eq, not_or, Bool.not_eq_true] at h1 h2
-  simp only [Bool.and_eq_true, ne_eq, decide_eq_true_eq, not_and, Nat.not_lt] at h5
-  refine ⟨by simpa using h1.1.1.1, h1.1.1.2, h1.1.2, h1.2, by omega, h2.1.1.2, h2.1.2, h2.2, ?_, by omega, ?_, hm,
-    ae, hae, hc'⟩
-  · intro he; simp [he] at h3
-  · by_cases hz : cfg.maxSizeKB = 0
-    · exact Or.inl hz
-    · exact Or.inr (by have := h5 hz; omega)
+/-- "Responses that may differ by coding carry Vary: Accept-Encoding" — ALL variants: if the
+    response to some request for this resource (same configuration, same response of the content
+    handler, same method) is coded, then the response to EVERY request with that method — the
+    identity variant for a client without Accept-Encoding, with only refused or unknown codings,
+    the 304 and the 412 included — carries Vary with the token Accept-Encoding. -/
+theorem c19_vary_all_variants (cfg : Cfg) (rs : Rs) (rq1 rq : Rq) (c : Coding) (k : Bool)
+    (hm : rq.method = rq1.method) (h1 : (respStart cfg rq1 rs).verdict = .encode c k) :
+    ∃ v, (respStart cfg rq rs).vary = some v ∧ containsToken v aeName = true := by
+  obtain ⟨hs, _, _⟩ := respStart_verdict_encode h1
+  obtain ⟨he1, _⟩ := selectCoding_some hs
+  have he : eligible cfg rq rs = true := by rw [eligible_congr cfg rq rq1 rs hm]; exact he1
+  cases hn : negotiate cfg rq with
+  | none =>
+    rw [respStart_identity_eq he hn]
+    exact ⟨_, rfl, varyAdjust_hasToken _⟩
+  | some c' =>
+    have hs' : selectCoding cfg rq rs = some c' := by unfold selectCoding; simp [he, hn]
+    cases hi : inmHit rq rs c' with
+    | true =>
+      rw [respStart_inm_eq hs' hi]
+      split <;> exact ⟨_, rfl, varyAdjust_hasToken _⟩
+    | false =>
+      rw [respStart_encode_eq hs' hi]
+      exact ⟨_, rfl, varyAdjust_hasToken _⟩
 
-example : selectCoding { mimetypes := [ofString "text/"], minSize := 10 }
-    { acceptEncoding := some (ofString "gzip") }
-    { contentType := some (ofString "text/plain"), len := 11 } = some .gzip := by decide
+/-- the identity variant of a compressible resource (client sends no Accept-Encoding) -/
+example : (respStart { mimetypes := [ofString "text/"], minSize := 0 } {}
+    { contentType := some (ofString "text/css"), etag := some (ofString "\"77\""), len := 5 }) =
+    ⟨.pass, 200, some (ofString "\"77\""), some aeName, none, true⟩ := by decide
+
+/-- RFC 9110 8.8.3: entity-tag = [ "W/" ] DQUOTE *etagc DQUOTE -/
+def etagc (b : UInt8) : Bool := b = 0x21 || (0x23 ≤ b && b ≤ 0x7e) || 0x80 ≤ b
+def IsOpaqueTag (e : Bytes) : Prop := ∃ m, e = dquote :: m ++ [dquote] ∧ ∀ x ∈ m, etagc x = true
+def IsEntityTag (e : Bytes) : Prop := IsOpaqueTag e ∨ ∃ o, e = 87 :: 47 :: o ∧ IsOpaqueTag o
+
+/-- The rewritten ETag of a coded response is again a syntactically valid entity-tag (strong
+    stays strong, weak stays weak) whenever the identity one is. -/
+theorem c19_etag_wellformed (e : Bytes) (c : Coding) (h : IsEntityTag e) : IsEntityTag (suffixEtag e c.label) := by
+  have hlab : ∀ x ∈ dash :: c.label, etagc x = true := by cases c <;> decide
+  have key : ∀ o, IsOpaqueTag o → ∀ p, IsOpaqueTag ((p ++ o).dropLast.drop p.length ++ dash :: c.label ++ [dquote]) := by
+    rintro o ⟨m, rfl, hm⟩ p
+    refine ⟨m ++ dash :: c.label, ?_, ?_⟩
+    · have : p ++ (dquote :: m ++ [dquote]) = (p ++ dquote :: m) ++ [dquote] := by simp
+      rw [this, List.dropLast_concat, List.drop_left]
+      simp
+    · intro x hx
+      rcases List.mem_append.mp hx with hx | hx
+      · exact hm x hx
+      · exact hlab x hx
+  rcases h with h | ⟨o, rfl, ho⟩
+  · left
+    have := key e h []
+    simpa [suffixEtag] using this
+  · right
+    refine ⟨(([87, 47] : Bytes) ++ o).dropLast.drop 2 ++ dash :: c.label ++ [dquote], ?_, key o ho [87, 47]⟩
+    obtain ⟨m, rfl, _⟩ := ho
+    have : (87 : UInt8) :: 47 :: (dquote :: m ++ [dquote]) = (87 :: 47 :: dquote :: m) ++ [dquote] := by simp
+    simp only [suffixEtag]
+    rw [this, List.dropLast_concat]
+    have h2 : ([87, 47] : Bytes) ++ (dquote :: m ++ [dquote]) = (87 :: 47 :: dquote :: m) ++ [dquote] := by simp
+    rw [h2, List.dropLast_concat]
+    simp
+
+example : IsEntityTag (ofString "\"1802567732\"") := Or.inl ⟨ofString "1802567732", by decide, by decide⟩
 
 /-- Whenever the body is coded: Vary names Accept-Encoding, Content-Encoding is the negotiated
-    coding (listed by the client, allowed by the configuration), the identity Content-Length is
-    gone, the status is unchanged, and an ETag (if any) is rewritten to a tag distinct from the
-    identity one. -/
+    coding (`selectCoding`, hence listed by the client with non-zero weight and allowed:
+    c19_negotiation_rfc / c19_encoding_listed_allowed), the identity Content-Length is gone, the
+    status is unchanged, and an ETag (if any) is rewritten to a tag distinct from the identity one.
+    (Only the Vary and the ETag conjuncts say more than the model's record; the others are read
+    off it and are worth what the `rs` correspondence is worth.) -/
 theorem c19_headers (cfg : Cfg) (rq : Rq) (rs : Rs) (c : Coding) (k : Bool)
     (h : (respStart cfg rq rs).verdict = .encode c k) :
     (∃ v, (respStart cfg rq rs).vary = some v ∧ containsToken v aeName = true) ∧
@@ -203,15 +273,71 @@ example : (respStart { mimetypes := [ofString "text/"], minSize := 0 }
     ⟨.notModified, 304, some (ofString "\"77-gzip\""), some aeName, none, false⟩ := by
   decide
 
-/-- A response that is not coded is not touched at all. -/
-theorem c19_identity_untouched (cfg : Cfg) (rq : Rq) (rs : Rs) (h : selectCoding cfg rq rs = none) :
-    respStart cfg rq rs = ⟨.pass, rs.status, rs.etag, rs.vary, none, rs.hasCL⟩ := by
-  unfold respStart
-  simp [h]
+/-! ## the coded body: stream assembly around the codec -/
 
-example : selectCoding { mimetypes := [ofString "text/"], minSize := 0 }
-    { acceptEncoding := some (ofString "gzip;q=0") }
-    { contentType := some (ofString "text/css"), len := 5 } = none := by decide
+open LtVerif.DeflateStream in
+/-- For EVERY body queue (memory and file chunks at any offsets, files longer than their chunk),
+    output buffer capacity, read block size, schedule of short reads and schedule of codec answers
+    (how much zlib consumes and writes per call, when it reports Z_STREAM_END): whenever
+    deflate_compress_response() succeeds, the codec has been handed exactly the identity body
+    (each byte once, in order), and what has been appended to the write queue / cache file is
+    exactly what the codec wrote (each byte once, in order) with nothing left in the buffer. -/
+theorem c19_stream_assembly (cap blk : Nat) (cq : List Chunk) (rsz : List Nat) (zs zs' : List ZR) (s : DeflateStream.St)
+    (h : compressResponse cap blk cq rsz zs = .ok (s, zs')) :
+    s.fed = body cq ∧ s.sink ++ s.obuf = s.outs.reverse.flatten ∧ (body cq ≠ [] → s.obuf = []) :=
+  compressResponse_spec cap blk cq rsz zs zs' s h
+
+open LtVerif.DeflateStream in
+/-- a 12-byte body in a memory chunk and a file chunk at offset 3 of a longer file, 5-byte output
+    buffer, short reads, a codec that dribbles -/
+example : (match compressResponse 5 4 [.mem [1, 2, 3, 4], .file [9, 9, 9, 5, 6, 7, 8, 10, 11, 12, 13, 99] 3 8] [1, 0]
+    [⟨4, [0xa], .ok⟩, ⟨1, [0xb, 0xc, 0xd, 0xe], .ok⟩, ⟨1, [], .ok⟩, ⟨1, [0xf], .ok⟩, ⟨4, [], .ok⟩, ⟨1, [], .ok⟩,
+     ⟨0, [1, 2, 3, 4], .ok⟩, ⟨0, [5], .streamEnd⟩] with
+    | .ok (s, _) => some (s.fed, s.sink)
+    | .error _ => none) =
+    some ([1, 2, 3, 4, 5, 6, 7, 8, 10, 11, 12, 13], [0xa, 0xb, 0xc, 0xd, 0xe, 0xf, 1, 2, 3, 4, 5]) := by decide
+
+open LtVerif.DeflateStream in
+/-- RFC 1950 / RFC 1952 containers: the strict decoder inverts the encoder, given only that raw
+    DEFLATE is self-delimiting and round-trips. -/
+theorem c19_framing_roundtrip (k : RawCodec) (sm : Sums) (f : Framing) (x : Bytes)
+    (hk : ∀ x t, k.inflateRaw (k.deflateRaw x ++ t) = some (x, t)) :
+    unframe k sm f (frame k sm f x) = some x := by
+  cases f with
+  | gzip =>
+    have h1 : (gzipHeader ++ (k.deflateRaw x ++ (le32 (sm.crc32 x) ++ le32 x.length))).take 10 = gzipHeader := by
+      simp [gzipHeader]
+    have h2 : (gzipHeader ++ (k.deflateRaw x ++ (le32 (sm.crc32 x) ++ le32 x.length))).drop 10
+        = k.deflateRaw x ++ (le32 (sm.crc32 x) ++ le32 x.length) := by simp [gzipHeader]
+    simp only [unframe, frame, h1, h2, hk, ↓reduceIte]
+  | zlib =>
+    have h1 : (zlibHeader ++ (k.deflateRaw x ++ be32 (sm.adler32 x))).take 2 = zlibHeader := by simp [zlibHeader]
+    have h2 : (zlibHeader ++ (k.deflateRaw x ++ be32 (sm.adler32 x))).drop 2 = k.deflateRaw x ++ be32 (sm.adler32 x) := by
+      simp [zlibHeader]
+    simp only [unframe, frame, h1, h2, hk, ↓reduceIte]
+
+/-- the container mod_deflate asks zlib for: gzip for "gzip" / "x-gzip", zlib for "deflate" -/
+def framingOf : Coding → LtVerif.DeflateStream.Framing
+  | .gzip => .gzip
+  | .xgzip => .gzip
+  | .deflate => .zlib
+
+open LtVerif.DeflateStream in
+/-- HEADLINE clause, PARTIAL: the body the client receives (or the cache file) decodes, with the
+    declared coding, to exactly the identity body — for every chunk layout, buffer size, read
+    split and codec schedule.  Missing from a full proof (= the assumptions on zlib): `hz` the
+    bytes zlib wrote during the session are the container around a raw DEFLATE stream of the
+    bytes it consumed; `hk` raw DEFLATE is self-delimiting and round-trips. -/
+theorem c19_body_decodes_partial (k : RawCodec) (sm : Sums) (c : Coding)
+    (hk : ∀ x t, k.inflateRaw (k.deflateRaw x ++ t) = some (x, t))
+    (cap blk : Nat) (cq : List Chunk) (rsz : List Nat) (zs zs' : List ZR) (s : DeflateStream.St)
+    (h : compressResponse cap blk cq rsz zs = .ok (s, zs')) (hne : body cq ≠ [])
+    (hz : s.outs.reverse.flatten = frame k sm (framingOf c) s.fed) :
+    unframe k sm (framingOf c) s.sink = some (body cq) := by
+  obtain ⟨hfed, hsink, hobuf⟩ := c19_stream_assembly cap blk cq rsz zs zs' s h
+  rw [hobuf hne, List.append_nil] at hsink
+  rw [hsink, hz, hfed]
+  exact c19_framing_roundtrip k sm _ _ hk
 
 /-! ## the on-disk cache -/
 
@@ -230,18 +356,24 @@ theorem c19_cache_never_stale (compress : Coding → Bytes → Bytes) (contentOf
     (st : St) (p : Nat) (c : Coding) (pid : Pid) (plan : Plan) (body : Bytes) (hit : Bool)
     (h : (st, Op.request p c pid plan, Obs.served body hit) ∈ run compress {} ops) :
     ∃ v content, st.src p = some (v, content) ∧ body = compress c content :=
-  (run_ok compress contentOf ops {} (srcOk_init _) (cacheOk_init _ _) hv _ h).2.2
+  (run_ok compress contentOf ops {} (srcOk_init _) (cacheOk_init _ _) (scOk_nil _ _) hv _ h).2.2
 
-/-- The same, reading "decodes to the identity body" — PARTIAL: correctness of the codec
-    (zlib) is the hypothesis `hz`, validated by the correspondence checks, not proved. -/
-theorem c19_served_decodes_partial (compress decode : Coding → Bytes → Bytes)
-    (hz : ∀ c x, decode c (compress c x) = x)
+open LtVerif.DeflateStream in
+/-- The same, reading "decodes to the identity body" — PARTIAL.  Assumptions on zlib made
+    explicit by instantiating the coded form: (1) it is a FUNCTION of (coding, content) — same
+    zlib, same deflate.compression-level / deflate.params for as long as the cache directory is in
+    use, across processes and restarts (needed because a leftover temporary file is opened
+    without O_TRUNC); (2) it is the RFC container around a raw DEFLATE stream; (3) `hk`. -/
+theorem c19_served_decodes_partial (k : RawCodec) (sm : Sums)
+    (hk : ∀ x t, k.inflateRaw (k.deflateRaw x ++ t) = some (x, t))
     (contentOf : Nat → Nat → Bytes) (ops : List Op) (hv : ValidatorDistinguishes contentOf ops)
-    (st : St) (p : Nat) (c : Coding) (pid : Pid) (plan : Plan) (body : Bytes) (hit : Bool)
-    (h : (st, Op.request p c pid plan, Obs.served body hit) ∈ run compress {} ops) :
-    ∃ v content, st.src p = some (v, content) ∧ decode c body = content := by
-  obtain ⟨v, content, hs, rfl⟩ := c19_cache_never_stale compress contentOf ops hv st p c pid plan body hit h
-  exact ⟨v, content, hs, hz c content⟩
+    (st : Deflate.St) (p : Nat) (c : Coding) (pid : Pid) (plan : Plan) (body : Bytes) (hit : Bool)
+    (h : (st, Op.request p c pid plan, Obs.served body hit) ∈
+      run (fun c x => frame k sm (framingOf c) x) {} ops) :
+    ∃ v content, st.src p = some (v, content) ∧ unframe k sm (framingOf c) body = some content := by
+  obtain ⟨v, content, hs, rfl⟩ :=
+    c19_cache_never_stale (fun c x => frame k sm (framingOf c) x) contentOf ops hv st p c pid plan body hit h
+  exact ⟨v, content, hs, c19_framing_roundtrip k sm _ _ hk⟩
 
 /-- At every point of every such history, every published cache file is the complete coded
     form of the version named by its validator, and every temporary file (whatever a dead or
@@ -250,43 +382,8 @@ theorem c19_cache_files_complete (compress : Coding → Bytes → Bytes) (conten
     (ops : List Op) (hv : ValidatorDistinguishes contentOf ops) :
     (∀ t ∈ run compress {} ops, CacheOk compress contentOf t.1.fs) ∧
     CacheOk compress contentOf (exec compress {} ops).fs :=
-  ⟨fun t ht => (run_ok compress contentOf ops {} (srcOk_init _) (cacheOk_init _ _) hv t ht).2.1,
-   (exec_ok compress contentOf ops {} (srcOk_init _) (cacheOk_init _ _) hv).2⟩
-
-/-- A cache hit reads exactly the published name of the CURRENT validator and coding — never a
-    temporary name and never another version's entry.  (Holds in every state.) -/
-theorem c19_tmp_never_served (compress : Coding → Bytes → Bytes) (st : St) (p : Nat) (c : Coding)
-    (pid : Pid) (plan : Plan) (body : Bytes)
-    (h : (doRequest compress st p c pid plan).2 = .served body true) :
-    ∃ v content, st.src p = some (v, content) ∧ fsGet st.fs (.final ⟨p, v, c⟩) = some body ∧
-      (doRequest compress st p c pid plan).1 = st := by
-  unfold doRequest at h ⊢
-  cases hs : st.src p with
-  | none => simp [hs] at h
-  | some vc =>
-    obtain ⟨v, content⟩ := vc
-    simp only [hs] at h ⊢
-    by_cases hca : plan.cacheable = true
-    case neg => simp [hca] at h
-    simp only [hca, Bool.not_true, Bool.false_eq_true, ↓reduceIte] at h ⊢
-    cases hget : fsGet st.fs (Name.final ⟨p, v, c⟩) with
-    | some b =>
-      simp only [hget] at h ⊢
-      split at h
-      · cases h
-      · rename_i hb
-        simp only [Obs.served.injEq, and_true] at h
-        subst h
-        exact ⟨v, content, rfl, hget, by simp [hb]⟩
-    | none =>
-      simp only [hget] at h
-      by_cases hop : plan.openOk = true
-      case neg => simp [hop] at h
-      simp only [hop, Bool.not_true, Bool.false_eq_true, ↓reduceIte] at h
-      split at h
-      · cases h
-      · cases h
-      · split at h <;> simp at h
+  ⟨fun t ht => (run_ok compress contentOf ops {} (srcOk_init _) (cacheOk_init _ _) (scOk_nil _ _) hv t ht).2.1,
+   (exec_ok compress contentOf ops {} (srcOk_init _) (cacheOk_init _ _) (scOk_nil _ _) hv).2⟩
 
 /-- non-vacuity of the cache theorems: a history with a writer killed mid-write, a reused
     process id, a source modification and a cache hit, under a toy codec -/
@@ -330,21 +427,18 @@ theorem c19_tmp_name_not_final (fn : Bytes) (pid : Nat) (dir path e : Bytes) (c 
   rw [h2] at hd
   cases c <;> simp [Coding.label] at hd <;> subst hd <;> simp [isDigit] at hdig
 
-/-- The published cache file name determines the source path, the validator digits of the
-    entity tag and the coding: two static resources / versions / codings never share a cache
-    entry (entity tags of static files are '"' decimal digits '-' label '"'). -/
-theorem c19_cache_name_injective (dir p1 p2 d1 d2 : Bytes) (c1 c2 : Coding)
-    (hn1 : d1 ≠ []) (hn2 : d2 ≠ [])
-    (hd1 : ∀ x ∈ d1, isDigit x = true) (hd2 : ∀ x ∈ d2, isDigit x = true)
-    (h : cacheFileName dir p1 (staticEtag d1 c1) = cacheFileName dir p2 (staticEtag d2 c2)) :
-    pathJoin dir p1 = pathJoin dir p2 ∧ d1 = d2 ∧ c1 = c2 :=
-  cacheFileName_static_inj dir p1 p2 d1 d2 c1 c2 hn1 hn2 hd1 hd2 h
+/-- The abstract cache directory of the cache theorems (objects `final (path, validator, coding)`
+    / `tmp … pid`) is faithful to the real one: with the validator read as the number in the
+    entity tag of a static file ('"' decimal '"'), a cache directory without trailing slash (as
+    set_defaults leaves it) and distinct absolute physical paths, distinct abstract objects have
+    distinct file names — published or temporary. -/
+theorem c19_cache_names_faithful (dir : Bytes) (pathOf : Nat → Bytes) (hd : dir.getLast? ≠ some slash)
+    (habs : ∀ p, (pathOf p).head? = some slash) (hinj : ∀ p q, pathOf p = pathOf q → p = q)
+    (n1 n2 : Name) (h : nameBytes dir pathOf n1 = nameBytes dir pathOf n2) : n1 = n2 :=
+  nameBytes_inj dir pathOf hd habs hinj n1 n2 h
 
-example : cacheFileName (ofString "/c") (ofString "/srv/a-1") (staticEtag (ofString "22") .gzip)
-    = ofString "/c/srv/a-1-22-gzip" := by decide
-example : suffixEtag (ofString "\"22\"") Coding.gzip.label = staticEtag (ofString "22") .gzip := by decide
-
-example : tmpFileName (cacheFileName (ofString "/c") (ofString "/srv/a.txt") (ofString "\"12-gzip\"")) 4711
+example : nameBytes (ofString "/c") (fun _ => ofString "/srv/a.txt") (.tmp ⟨0, 12, .gzip⟩ 4711)
     = ofString "/c/srv/a.txt-12-gzip.4711" := by decide
+example : suffixEtag (ofString "\"22\"") Coding.gzip.label = staticEtag (ofString "22") .gzip := by decide
 
 end LtVerif.C19
